@@ -1721,3 +1721,121 @@ func (ea *errAnalysis) runErrorInvalidates(rule string, only func(fn *ssa.Functi
 		})
 	}
 }
+
+// runE6Fields: a value and an error that come out of one call and are both
+// stored into fields of the same object (`it.inner, it.err = open(…)`): every
+// later use of the value field in that function (method call on it, field
+// access through it) must be on a path on which the error — the value or the
+// field it was stored in — was found nil.  A failed open leaves the value nil,
+// and the use panics instead of surfacing the error.
+func (ea *errAnalysis) runE6Fields(rule string, only func(fn *ssa.Function) bool) {
+	c, l := ea.c, ea.l
+	for _, fn := range ea.scopeFuncs() {
+		if only != nil && !only(fn) {
+			continue
+		}
+		allInstrs(fn, func(in ssa.Instruction) {
+			call, ok := in.(*ssa.Call)
+			if !ok || call.Call.Signature().Results().Len() < 2 {
+				return
+			}
+			ei := errResultIndex(call.Call.Signature())
+			if ei < 0 {
+				return
+			}
+			e := extractOf(call, ei)
+			if e == nil {
+				return
+			}
+			// field the error is stored into
+			var fe *types.Var
+			for _, r := range refs(e) {
+				if st, isSt := r.(*ssa.Store); isSt && st.Val == ssa.Value(e) {
+					if fa, isFA := st.Addr.(*ssa.FieldAddr); isFA {
+						fe = fieldVar(fa.X.Type(), fa.Field)
+					}
+				}
+			}
+			if fe == nil {
+				return
+			}
+			for i := 0; i < call.Call.Signature().Results().Len(); i++ {
+				if i == ei {
+					continue
+				}
+				v := extractOf(call, i)
+				if v == nil {
+					continue
+				}
+				switch v.Type().Underlying().(type) {
+				case *types.Pointer, *types.Interface:
+				default:
+					continue
+				}
+				var fv *types.Var
+				var stV *ssa.Store
+				for _, r := range refs(v) {
+					if st, isSt := r.(*ssa.Store); isSt && st.Val == ssa.Value(v) {
+						if fa, isFA := st.Addr.(*ssa.FieldAddr); isFA {
+							fv, stV = fieldVar(fa.X.Type(), fa.Field), st
+						}
+					}
+				}
+				if fv == nil {
+					continue
+				}
+				// uses of the value field after the store
+				var bad ssa.Instruction
+				// only paths on which the value can still be the nil of a failed call are followed: past a test
+				// that found the error nil, or the value field non-nil, there is nothing left to show
+				follow := func(b *ssa.BasicBlock, succ int) bool {
+					iff := ifOf(b)
+					if iff == nil {
+						return true
+					}
+					t, nn, isNil := nilCond(iff.Cond)
+					if !isNil {
+						return true
+					}
+					t = stripTrivial(t)
+					switch {
+					case t == ssa.Value(e) || isLoadOfField(fe)(t):
+						return succ == nn
+					case isLoadOfField(fv)(t):
+						return succ != nn
+					}
+					return true
+				}
+				searchFromEdges([]point{after(stV)}, func(x ssa.Instruction) bool {
+					if bad != nil {
+						return true
+					}
+					// a new store into the value field ends the obligation on this path
+					if isStoreToField(x, fv) {
+						return true
+					}
+					var recv ssa.Value
+					if cc := callCommon(x); cc != nil {
+						if cc.IsInvoke() {
+							recv = cc.Value
+						} else if f := staticCallee(cc); f != nil && f.Signature.Recv() != nil && len(cc.Args) > 0 {
+							recv = cc.Args[0]
+						}
+					} else if fa, isFA := x.(*ssa.FieldAddr); isFA {
+						recv = fa.X
+					}
+					if recv != nil && isLoadOfField(fv)(stripTrivial(recv)) {
+						bad = x
+					}
+					return false
+				}, follow)
+				key := l.fname(fn) + " uses " + fv.Name() + " obtained together with " + fe.Name() + " from " + l.calleeName(call)
+				if bad == nil {
+					c.ok(rule, key, l.ipos(call), "every use is behind a nil test of the error")
+				} else {
+					c.bad(rule, key, l.ipos(bad), "the value stored into "+fv.Name()+" is used without the error stored into "+fe.Name()+" having been found nil: when "+l.calleeName(call)+" fails the value is nil and this use panics instead of the error being reported")
+				}
+			}
+		})
+	}
+}
